@@ -81,9 +81,9 @@ def obligations(tier: str, seed: int):
         add(sql, 1, 1, JOIN_SMALL, ct1)
     if not quick:
         for sql in JOINS:
-            add(sql, 2, 1, JOIN_SMALL, 1500, decided=False)
+            add(sql, 2, 1, JOIN_SMALL, 900, decided=False)
         for sql in JOINS[:6]:
-            add(sql, 2, 2, JOIN_SMALL, 1500, decided=False)
+            add(sql, 2, 2, JOIN_SMALL, 900, decided=False)
     bounds = {
         "cells": "every cell Optional[int]: NULL or any integer (columns listed under small_range_columns: NULL or -1..1, because the hash join / "
                  "group-by / sort realise their keys one value at a time)",
